@@ -1,8 +1,10 @@
 mod cmpmon;
+mod engines;
 mod explore;
 mod genops;
 mod ops;
 mod shim;
+mod sweeps;
 mod util;
 
 use explore::*;
@@ -72,6 +74,40 @@ pub fn cov_json(cov: &Cov, only: &[usize], lite: bool) -> String {
         .raw("counters", counters)
         .s("digest", &format!("{:016x}", cov.digest))
         .render()
+}
+
+pub fn emit_viol_case(engine: &str, v: &Viol, seed: u64, case: &str, oplog: &[ops::Op]) {
+    let tail: Vec<String> = oplog.iter().rev().take(40).rev().map(|s| jstr(&s.show())).collect();
+    emit(
+        &J::new()
+            .s("t", "viol")
+            .s("engine", engine)
+            .n("prop", v.prop as u64)
+            .s("monitor", v.monitor)
+            .s("msg", &v.msg)
+            .n("seed", seed)
+            .s("case", case)
+            .raw("oplog_tail", jarr(tail))
+            .render(),
+    );
+}
+
+#[allow(clippy::too_many_arguments)]
+pub fn emit_viol_h(engine: &str, v: &Viol, seed: u64, hist: u64, profile: &str, extra: &str, oplog: &[ops::Op], replay_extra: Vec<String>) {
+    let tail: Vec<String> = oplog.iter().rev().take(40).rev().map(|s| jstr(&s.show())).collect();
+    emit(
+        &J::new()
+            .s("t", "viol")
+            .s("engine", engine)
+            .n("prop", v.prop as u64)
+            .s("monitor", v.monitor)
+            .s("msg", &v.msg)
+            .n("seed", seed)
+            .s("case", &format!("history {hist} ({profile}): {extra}"))
+            .raw("replay_extra", jarr(replay_extra.iter().map(|s| jstr(s))))
+            .raw("oplog_tail", jarr(tail))
+            .render(),
+    );
 }
 
 fn emit_viol(engine: &str, v: &Viol, seed: u64, hist: u64, profile: &str, extra: &str, oplog: &[ops::Op]) {
@@ -150,10 +186,23 @@ fn main() {
     if !a.flag("show-panics") {
         std::panic::set_hook(Box::new(|_| {}));
     }
-    ops::statics();
+    ops::init_statics();
     match argv[1].as_str() {
         "noop" => {}
         "explore" => engine_explore(&a),
+        "faults" => engines::engine_faults(&a),
+        "sizes" => engines::engine_sizes(&a),
+        "indices" => engines::engine_indices(&a),
+        "panics" => engines::engine_panics(&a),
+        "clones" => engines::engine_clones(&a),
+        "construct" => engines::engine_construct(&a),
+        "growth" => engines::engine_growth(&a),
+        "shrink" => engines::engine_shrink(&a),
+        "eqclass" => engines::engine_eqclass(&a),
+        "ints" => sweeps::engine_ints(&a),
+        "tls" => sweeps::engine_tls(&a),
+        "utf" => sweeps::engine_utf(&a),
+        "serde" => sweeps::engine_serde(&a),
         x => {
             eprintln!("unknown engine {x}");
             std::process::exit(2);
